@@ -128,7 +128,7 @@ Proof.
 Qed.
 
 (* ---- flush_all ---- *)
-Theorem flush_e2e sid s delay n db : check_integer c delay = Ok db -> (forall z, int_value delay = Some z -> 0 <= z < 2 ^ 63) ->
+Theorem flush_e2e sid s delay n db : check_integer c delay = Ok db -> (forall z, int_value delay = Some z -> 0 <= z) ->
   exists z, int_value delay = Some z /\
   let nr := eff_noreply c n in
   let s' := fst (exec s (CFlush z nr)) in
@@ -137,7 +137,7 @@ Proof.
   intros He Hr. set (nr := eff_noreply c n).
   destruct (flush_wellformed c delay nr db He Hr) as (z & Ez & Hb & _). exists z. split; [exact Ez|]. cbn zeta. fold nr.
   assert (Hwf : wf_cmd (CFlush z nr) = true).
-  { unfold wf_cmd. specialize (Hr z Ez). apply andb_true_iff. split; [apply Z.leb_le; lia|apply Z.ltb_lt; lia]. }
+  { unfold wf_cmd. specialize (Hr z Ez). apply Z.leb_le; lia. }
   pose proof (misc_single sid s (CFlush z nr) (L_flush_all_sp ++ db ++ (if nr then L_noreply else []) ++ L_crlf) Hwf eq_refl Hb) as M.
   cbn zeta in M. cbn [is_noreply] in M.
   assert (Ho : snd (exec s (CFlush z nr)) = OOk) by reflexivity.
